@@ -17,4 +17,71 @@ SEEDS = [
         }
 
         None""", note='exact lookup descends into the wrong subtree'),
+
+    dict(id='D6-set-index-after-unguarded', props=['C09', 'C10'], file='src/set/tree.rs',
+         old="""            let mut parent_index = node.parent;
+            while parent_index != EMPTY_REF {
+                let parent = self.node(parent_index);
+                if parent.right != index {
+                    break;
+                }
+                index = parent_index;
+                parent_index = parent.parent;
+            }
+            parent_index""",
+         new="""            let mut parent_index = node.parent;
+            let mut parent = self.node(parent_index);
+            while parent.right == index {
+                index = parent_index;
+                parent_index = parent.parent;
+                parent = self.node(parent_index);
+            }
+            parent_index""", note='successor step dereferences the empty parent link of the root'),
+    dict(id='N1-map-delete-unguarded', props=['C04', 'C10'], file='src/map/tree.rs',
+         old="""        let index = self.find_index(key);
+        if index != EMPTY_REF {
+            self.delete_index(index);
+        }""",
+         new="""        let index = self.find_index(key);
+        self.delete_index(index);""", note='deleting an absent key dereferences EMPTY_REF'),
+    dict(id='N2-set-rotate-drop-guard', props=['C10'], file='src/set/tree.rs',
+         old="""        if lt_right != EMPTY_REF {
+            self.node_mut(lt_right).parent = index;
+        }""",
+         new="""        self.node_mut(lt_right).parent = index;""", note='rotation writes the parent of an absent inner grandchild'),
+    dict(id='N3-key-uncle-red-check', props=['C10'], file='src/key/tree.rs',
+         old="""        if u_index != EMPTY_REF && self.node(u_index).color == Color::Red {""",
+         new="""        if self.node(u_index).color == Color::Red {""", note='absent uncle dereferenced'),
+    dict(id='N4-map-is-black-guard', props=['C10'], file='src/map/tree.rs',
+         old="""        index == EMPTY_REF || self.node(index).color == Color::Black""",
+         new="""        self.node(index).color == Color::Black""", note='is_black dereferences absent nephews'),
+    dict(id='N5-key-expire-left-guard', props=['C10'], file='src/key/tree.rs',
+         old="""        let mut index = self.node(n_index).left;
+
+        while index != EMPTY_REF {
+            let node = self.node(index);
+            if node.is_not_expired(time) {
+                return index;
+            }
+            self.delete_index(index);
+            index = self.node(n_index).left;
+        }
+        index""",
+         new="""        let mut index = self.node(n_index).left;
+
+        loop {
+            let node = self.node(index);
+            if node.is_not_expired(time) {
+                return index;
+            }
+            self.delete_index(index);
+            index = self.node(n_index).left;
+        }""", note='gate loops without the emptiness guard'),
+    dict(id='N6-set-find-left-minimum', props=['C09', 'C10'], file='src/set/tree.rs',
+         old="""        if node.right != EMPTY_REF {
+            self.find_left_minimum(node.right)
+        } else {""",
+         new="""        if node.left != EMPTY_REF {
+            self.find_left_minimum(node.right)
+        } else {""", note='successor step tests the wrong link'),
 ]
